@@ -395,9 +395,46 @@ def check(P, R):
     c04.check_content_length(P, Sub(R, why='every legal chunked request is decoded: a missing or empty Content-Length is not an error'), 'C05.e')
     from . import c13 as _c13
     _c13.check_get_body_string(P, Sub(R, why='a partial body is never presented as complete: a chunked form longer than the threshold is refused, not truncated'), 'C05.c')
+    # the parsed views of the body do not depend on the framing either (content_length is -1 for every chunked request)
+    from . import c18 as _c18
+    for fq_, what_ in ((f'{BM}:BodyMixin.json', 'request.json'), (f'{BM}:BodyMixin.POST', 'request.POST (urlencoded / JSON branch)')):
+        _c18.check_view_guards(P, R, 'C05.c', fq_, lambda c: dotted(c.func) in ('self._get_body_string', 'parse_qsl'), what_,
+                               'the body presented to the application is the concatenation of the chunk payloads - also through its parsed views')
+    check_chunked_flag(P, R, 'C05.e')
     # ---- e: mapping of request errors
     check_errors_mapping(P, R, 'C05.e')
     check_raise_and_body(P, R, 'C05.e')
+
+
+def check_chunked_flag(P, R, rid):
+    """`request.chunked` recognises the coding wherever it stands in the Transfer-Encoding list: a substring test of the lower-cased header, or a membership
+    test over the items of the list *with the optional white space around them removed*"""
+    f = P.func(f'{BM}:BodyMixin.chunked')
+    for (v, at, rst) in T.result_values(f):
+        if v is None:
+            continue
+        vx = T.expand(f, v, at)
+        for x in ast.walk(vx):
+            cp = compare_parts(x) if isinstance(x, ast.Compare) else None
+            if not (cp and cp[1] in (ast.In, ast.Eq) and is_const(cp[0], 'chunked') or (cp and cp[1] is ast.Eq and is_const(cp[2], 'chunked'))):
+                continue
+            other = cp[2] if is_const(cp[0], 'chunked') else cp[0]
+            splits = [y for y in ast.walk(other) if isinstance(y, ast.Call) and call_attr(y) in ('split', 'rsplit', 'partition', 'rpartition')]
+            lowered = any(isinstance(y, ast.Call) and call_attr(y) in ('lower', 'casefold') for y in ast.walk(other))
+            R.ob(rid, f, rst, lowered, text='the coding name is compared case-insensitively', detail='' if lowered else
+                 'Transfer-Encoding: Chunked (any other case) is not recognised', key_extra='te-case', nontrivial=False)
+            if splits:
+                stripped = any(isinstance(y, ast.Call) and call_attr(y) == 'strip' for y in ast.walk(other))
+                whole = cp[1] is ast.Eq
+                ok = stripped and not whole
+                R.ob(rid, f, rst, ok, text='items of the Transfer-Encoding list are compared without the white space around them', detail='' if ok else
+                     f'`{short(x)}` compares the name with the raw pieces of `{short(splits[0])}`: in `Transfer-Encoding: gzip, chunked` the piece is " chunked" and is not '
+                     f'recognised, so the chunk framing itself is handed to the application as the body (or the body comes back empty)',
+                     why='for every legal chunked request the body is the concatenation of the chunk payloads', key_extra='te-items')
+            elif cp[1] is ast.Eq:
+                R.ob(rid, f, rst, False, text='chunked is recognised as one coding of a list', detail=
+                     f'`{short(x)}` compares the whole header value: `gzip, chunked` is not recognised as chunked',
+                     why='for every legal chunked request the body is the concatenation of the chunk payloads', key_extra='te-items')
 
 
 def check_errors_mapping(P, R, rid):
